@@ -48,6 +48,7 @@ func (m *Mutex) Lock() {
 	sched.Point("Mutex.Lock")
 	sched.Block("Mutex.Lock", mutexFree{m})
 	m.held = true
+	sched.NoteAcquire()
 	raceAcquire(m)
 }
 
